@@ -114,7 +114,7 @@ PROPS = {
                      "Goat.C03.C03_accept_implies", "Goat.C03.C03_value_exact", "Goat.C03.C03_coinbase_only_at_zero",
                      "Goat.C03.hasDeposited_iff", "Goat.C03.newDeposits_go_spec", "Goat.C03.C03_deposit_once"],
         "streams": [{"name": "bitcoin", "quick": 2500, "thorough": 30000, "seeds": 16}, {"name": "merkle", "quick": 3000, "thorough": 60000, "seeds": 8}],
-        "assumptions": ["double SHA-256 collision resistance enters only as the explicit hypothesis IdealHash of the coinbase corollary",
+        "assumptions": ["double SHA-256 collision resistance enters only in the conclusion of the coinbase corollary (another transaction presented at a position exhibits a collision, C04.Collision64)",
                         "btcd DeserializeNoWitness is re-implemented in the model (BtcTx.parseNoWitness) and tied differentially",
                         "hash160 / taproot tweak values are stated by the harness (computed with btcd / x/crypto directly, independently of x/bitcoin/types)"],
     },
@@ -251,18 +251,22 @@ PROPS = {
         "partial": "crash freedom is sampled (byte-level mutations of every message type and of proposals), not proved; the rollback half is proved on the model",
     },
     "C04": {
-        "module": "GoatProofs.C04",
+        "module": ["GoatProofs.C04", "GoatProofs.C04I"],
         "theorems": [
             "Goat.C04.C04_exact",
             "Goat.C04.C04_malformed_rejected",
             "Goat.C04.C04_alias_rejected",
             "Goat.C04.C04_position_binding",
             "Goat.C04.C04_accepted_is_leaf",
+            "Goat.C04.C04_same_position_same_leaf",
+            "Goat.C04.C04_position_binding_ideal",
+            "Goat.C04.collision64_exists",
+            "Goat.C04.idealHash_unsatisfiable",
             "Goat.C04.F2_unchecked_accepts_alias",
         ],
         "streams": [{"name": "merkle", "quick": 4000, "thorough": 150000, "seeds": 16}, {"name": "bitcoin", "quick": 2500, "thorough": 20000, "seeds": 8}],
         "assumptions": [
-            "position binding (C04_position_binding) assumes collision resistance of double SHA-256 as an explicit hypothesis (IdealHash), never as an axiom",
+            "position binding (C04_position_binding) assumes only that the hash has 32-byte outputs and concludes 'the leaf at that position, or an explicit collision on two 64-byte inputs': the usual idealisation (injective on 64-byte inputs) is met by no function (C04I.idealHash_unsatisfiable), a theorem assuming it would be vacuous",
             "the Go function is compared with the model on generated inputs only (differential), with real double SHA-256 on both sides",
         ],
     },
